@@ -198,7 +198,8 @@ class _InfoHandler(FileHandler):
         self.times = times
 
     def get_info(self, file_info, **kw):
-        return FileInfo(file_info.path, self.times, {"from_handler": "yes"})
+        # a fresh FileInfo whose attributes conflict with what the file name says about {sat}
+        return FileInfo(file_info.path, self.times, {"from_handler": "yes", "sat": "HANDLER"})
 
 
 @harness("C02.info-via", cases=lambda tier: ["filename", "handler", "both", "both-partial"],
@@ -211,11 +212,14 @@ def k_info_via(ctx):
         h0 = ST.sym_datetime_fields(ctx, "h0", win, "second")
         h1 = ST.sym_datetime_fields(ctx, "h1", win, "second")
         times = [h0, h1] if mode != "both-partial" else [None, h1]
-        fs = make_fileset(ctx, "/d/{year}{month}{day}_{hour}.nc", mfs, handler=_InfoHandler(times),
+        fs = make_fileset(ctx, "/d/{sat}_{year}{month}{day}_{hour}.nc", mfs, handler=_InfoHandler(times),
                           info_via="both" if mode == "both-partial" else mode, time_coverage="1 hour")
         s = ST.sym_datetime_fields(ctx, "s", win, "hour")
-        name = fs.get_filename(s)
+        name = fs.get_filename(s, fill={"sat": "NAME"})
         info = fs.get_info(FileInfo(name))
+    # the user placeholder {sat}: from the name in 'filename' mode, from the handler otherwise (it overrides)
+    ctx.check("handler-information-overrides-the-file-name",
+              info.attr.get("sat") == ("NAME" if mode == "filename" else "HANDLER"), detail="attr %r in mode %s" % (info.attr, mode))
     if mode == "filename":
         ok = And(info.times[0] == s, info.times[1] == s + timedelta(hours=1)) if ctx.sym else \
             (info.times == [s, s + timedelta(hours=1)])
